@@ -21,7 +21,7 @@ def main():
     mod = driver.load_property(pid)
     known = driver.load_known(pid)
     for t in mod.PROPERTY.tasks:
-        if sub not in t.name:
+        if (sub.startswith("=") and t.name != sub[1:]) or (not sub.startswith("=") and sub not in t.name):
             continue
         driver.core.CVC5_FIRST = bool(getattr(t, "cvc5_first", False))
         driver.core.ABSTRACT_STRINGS_FIRST = bool(getattr(t, "abstract_strings", False))
